@@ -17,6 +17,9 @@ Tie:   T — Generated/SyncShape.lean (critical-section structure of every metho
            over it (store-if-absent wrappers are ONE LoadOrStore, pooled messages are read inside LoadWithFunc, no Load…Store).
        X (callers) — the wrappers themselves under the same scheduler: udp/client messageCache.Store/Load and net/blockwise
            Do x getSentRequest / getSendingMessageCode (through add-only overlay exports), judged by the same specification.
+           Also net/observation's table (concurrent Cancel), the block-wise reassembly table (expired, unswept entry), and the
+           plain map with lwfr: LoadWithFunc whose callback looks its key up again (callback execution as an observable event).
+           A panic of the code under test is the schedule's observation (r<t>:panic:…): reported with program and schedule.
        stress — many goroutines on the unmodified code (real RWMutex), histories ordered by an atomic counter, judged.
 """
 import glob
@@ -43,12 +46,13 @@ def build_coop(ctx):
     os.makedirs(ov, exist_ok=True)
     mp = os.path.join(common.REPO, "pkg", "sync", "map.go")
     src = open(mp).read()
-    if src.count("sync.RWMutex") != 1 or "mutex sync.RWMutex" not in src:
+    nocomment = lambda t: re.sub(r"//[^\n]*", "", re.sub(r"/\*.*?\*/", "", t, flags=re.S))   # comments may mention sync.RWMutex
+    if nocomment(src).count("sync.RWMutex") != 1 or len(re.findall(r"\bmutex\s+sync\.RWMutex\b", nocomment(src))) != 1:
         ctx.broken.append(("correspondence", "C14 overlay: pkg/sync/map.go does not declare exactly one `mutex sync.RWMutex`", ""))
         return None
-    new = src.replace("sync.RWMutex", "CoopRWMutex")
+    new = re.sub(r"(\bmutex\s+)sync\.RWMutex\b", r"\1CoopRWMutex", src)
     new, n = re.subn(r'\n\t"sync"\n', "\n", new, count=1)
-    if n != 1 or re.search(r"\bsync\.", new.replace("package sync", "")):
+    if n != 1 or re.search(r"\bsync\.", nocomment(new).replace("package sync", "")):
         ctx.broken.append(("correspondence", "C14 overlay: pkg/sync/map.go uses package sync for more than the mutex", ""))
         return None
     open(os.path.join(ov, "map.go"), "w").write(new)
@@ -198,6 +202,14 @@ def gen_programs(ctx):
                 [["hold:1:2"], ["copy:1"], ["code:1"]], [["hold:1:2", "hold:1:3"], ["copy:1"]], [["hold:1:2"], ["hold:2:3"], ["copy:1", "copy:2"]],
                 [["hold:1:2", "hold:1:3"], ["copy:1", "code:1"]], [["hold:1:4"], ["copy:1"], ["copy:1"]]):
         P.append(fmt_prog("bwsend", [], ths, ["copy:1", "code:1"]))
+    #     mapcb  = the plain map with lwfr: LoadWithFunc whose callback looks its key up again (a scheduling point inside the
+    #              callback): what it reads is what it was called with, whatever Delete / Replace / Store the other threads try
+    for pre in (["store:1:5"], ["store:1:5", "store:2:6"]):
+        for other in (["delete:1"], ["replace:1:7"], ["store:1:7"], ["lad:1"], ["rwf:1:del"], ["rwf:1:inc:1"], ["dwf:1"], ["ladall"],
+                      ["lwfr:1:100"], ["load:1"], ["delete:1", "store:1:8"]):
+            P.append(fmt_prog("mapcb", pre, [["lwfr:1:100"], other], ["load:1", "len"]))
+    P.append(fmt_prog("mapcb", ["store:1:5"], [["lwfr:1:100"], ["delete:1"], ["los:1:9"]], ["load:1"]))
+    P.append(fmt_prog("mapcb", [], [["lwfr:1:100"], ["store:1:7"]], ["load:1"]))
     #     obstab = net/observation's table of observations (reg = NewObservation, cancel = Observation.Cancel on the first
     #              observation registered under the key: "removed it and sent the deregistration" is LoadAndDelete's result,
     #              has = GetObservation): concurrent cancels of one observation have exactly one winner
@@ -284,12 +296,12 @@ def nontrivial(history):
 
 # wrapper kinds whose operations are more than one step of the table (or hold its lock across a scheduling point): their
 # histories are judged against the sequential specification, not replayed on the step model
-JUDGE_ONLY = ("bwsend", "obstab", "bwrecv")
+JUDGE_ONLY = ("bwsend", "obstab", "bwrecv", "mapcb")
 
 
 def clause_of(prog):
     ops = re.findall(r"[=,]([a-z0-9]+)(?=[:,\s]|$)", prog)
-    if prog.split()[1] == "bwsend":
+    if prog.split()[1] in ("bwsend", "mapcb"):
         return "callbacks-see-current-value"
     if prog.split()[1] in ("obstab", "bwrecv"):
         return "store-if-absent"
@@ -322,7 +334,7 @@ def explore_programs(ctx, art, coop, progs, tag):
     return res
 
 
-def any_bad(ctx, art, coop, prog):
+def any_bad(ctx, art, coop, prog, crash=False):
     runs = explore_programs(ctx, art, coop, [prog], "min")
     if not runs:
         return None
@@ -331,13 +343,14 @@ def any_bad(ctx, art, coop, prog):
     for s, v in zip(hs, j or []):
         if "program_error" in s:
             return None      # the reduced program is not a valid program any more (e.g. an expiry that no longer fits the clock)
-        if v == "lin none" or v.startswith("violates"):
+        if v.startswith("violates no-crash") if crash else (v == "lin none" or v.startswith("violates")):
             return s, v
     return None
 
 
-def minimise(ctx, art, coop, prog, sched):
-    """Drop operations from the program while some schedule still gives a non-linearizable history."""
+def minimise(ctx, art, coop, prog, sched, crash=False):
+    """Drop operations from the program while some schedule still gives a non-linearizable history (crash: while some
+    schedule still makes the code under test panic / deadlock)."""
     m = re.match(r"prog (\w+) pre=(\S+) (.*) post=(\S+)", prog)
     if not m:
         return prog, sched
@@ -357,7 +370,7 @@ def minimise(ctx, art, coop, prog, sched):
                     continue
                 cp = fmt_prog(kind, cand[0], cand[1:-1], cand[-1])
                 budget -= 1
-                r = any_bad(ctx, art, coop, cp)
+                r = any_bad(ctx, art, coop, cp, crash)
                 if r:
                     parts, best, changed = cand, (cp, r[0]), True
                     break
@@ -411,14 +424,22 @@ def explore(ctx, art, coop):
             continue
         else:
             badprogs.setdefault(hist[h][0], (hist[h][1], v))
-    for p, (s, v) in list(badprogs.items())[:6]:
-        mp, ms = minimise(ctx, art, coop, p, s)
-        clause = "no-crash" if v.startswith("violates") else clause_of(mp)
+    # report at most 6 programs, taking the kinds of object in turn (so that one noisy wrapper does not hide the others)
+    bykind = {}
+    for p, sv in badprogs.items():
+        bykind.setdefault(p.split()[1], []).append((p, sv))
+    chosen = [x for row in itertools.zip_longest(*bykind.values()) for x in row if x is not None][:6]
+    for p, (s, v) in chosen:
+        mp, ms = minimise(ctx, art, coop, p, s, crash=v.startswith("violates no-crash"))
+        jm = drive(art["driver"], "judge", [ms])
+        if jm and (jm[0] == "lin none" or jm[0].startswith("violates")):
+            v = jm[0]          # the verdict on the reduced program (a crash may have become a plain wrong answer)
+        clause = v.split()[1] if v.startswith("violates") and len(v.split()) > 1 else clause_of(mp)
         sig = "C14:%s:%s" % (clause, mp)
         if any(x.signature == sig for x in ctx.violations):
             continue
         ctx.violations.append(common.Violation(
-            clause, sig, "history not linearizable w.r.t. the sequential map: %s  [%s]" % (ms, mp),
+            clause, sig, "%s: %s  [%s]" % ("history not linearizable w.r.t. the sequential map" if v == "lin none" else v, ms, mp),
             {"input": [ms.split(" | ")[0] + " " + mp], "observed": ms, "judge": v, "found_in": p}))
     if len(badprogs) > 6:
         ctx.count("further programs with a non-linearizable history", len(badprogs) - 6)
